@@ -246,7 +246,10 @@ def run(tape, prop, tier):
     adversarial = prop == 'C18' or tape.chance(1, 6, 'adversarial')
     max_redirect = tape.choice((20, 5, 2, 1, 0), 'max_redirect') if adversarial else tape.choice((20, 5, 3), 'max_redirect')
     use_cookies = tape.chance(3, 4, 'cookies')
-    opt_login = ('optuser', 'optpass') if tape.chance(1, 4, 'opt_login') else None
+    opt_login = None
+    if tape.chance(1, 3 if prop == 'C18' else 4, 'opt_login'):
+        # --http-user / --http-password given together, or (legal) only one of them
+        opt_login = tape.choice((('optuser', 'optpass'), (None, 'optpass'), ('', 'optpass'), ('optuser', '')), 'opt_login.kind') if prop == 'C18' else ('optuser', 'optpass')
     use_proxy = prop == 'C16' and tape.chance(1, 4, 'use_proxy')
     start = Target(tape)
     if tape.chance(1, 4, 'userinfo'):
